@@ -270,7 +270,7 @@ def writer_rows(repo: Repo, ci: ClassInfo, fn: ast.FunctionDef, qual: Optional[s
     qual = qual or f"{ci.qualname}.{fn.name}"
     rel = ci.file.rel
     from . import inline
-    fn = inline.flatten(repo, ci, fn)          # private helper generators (`yield from self._x_chunks(m)`) are part of the writer
+    fn = inline.normalize(repo, ci, fn)        # private helper generators (`yield from self._x_chunks(m)`) are part of the writer
 
     def handle_yield(y: ast.AST, env, guards, loops):
         if isinstance(y, ast.YieldFrom):
@@ -465,7 +465,7 @@ def cstring_decode(fn: ast.FunctionDef, data: str):
 
 def classify_handler(repo: Repo, ci: ClassInfo, cid: str, fn: ast.FunctionDef) -> RRow:
     from . import inline
-    fn = inline.flatten(repo, ci, fn)
+    fn = inline.normalize(repo, ci, fn)
     body = stmts_of(fn)
     row = RRow(cid, "custom", None, [], "", fn, ci.qualname, ci.file.rel, stmts=[norm(s) for s in body])
     params = [a.arg for a in fn.args.args if a.arg != "self"]
